@@ -134,6 +134,27 @@ impl Session {
         R: AsyncRead + Send + Unpin + 'static,
         W: AsyncWrite + Send + Unpin + 'static,
     {
+        Self::new_client_with_shared_padding(
+            reader,
+            writer,
+            Arc::new(RwLock::new(padding)),
+            heartbeat,
+        )
+    }
+
+    /// Create a new client session whose padding scheme lives in a cell shared with
+    /// its owner: a scheme pushed by the server on this session is then also seen by
+    /// the owner and by every other session created from the same cell.
+    pub fn new_client_with_shared_padding<R, W>(
+        reader: R,
+        writer: W,
+        padding: Arc<RwLock<Arc<PaddingFactory>>>,
+        heartbeat: Option<SessionHeartbeatConfig>,
+    ) -> Self
+    where
+        R: AsyncRead + Send + Unpin + 'static,
+        W: AsyncWrite + Send + Unpin + 'static,
+    {
         let (stream_data_tx, stream_data_rx) = mpsc::unbounded_channel();
         let id = SESSION_COUNTER.fetch_add(1, std::sync::atomic::Ordering::Relaxed);
         let heartbeat_state = heartbeat.map(|cfg| {
@@ -154,7 +175,7 @@ impl Session {
             stream_data_rx: Arc::new(tokio::sync::Mutex::new(Some(stream_data_rx))),
             stream_receive_tx: Arc::new(RwLock::new(HashMap::new())),
             is_closed: Arc::new(std::sync::atomic::AtomicBool::new(false)),
-            padding: Arc::new(RwLock::new(padding)),
+            padding,
             is_client: true,
             send_padding: true,
             pkt_counter: Arc::new(std::sync::atomic::AtomicU32::new(0)),
@@ -702,13 +723,21 @@ impl Session {
                 // Server updates padding scheme (client side)
                 if self.is_client && !frame.data.is_empty() {
                     let raw_scheme = frame.data.as_ref();
-                    match PaddingFactory::update_default(raw_scheme) {
-                        Ok(_) => {
-                            let md5_hash = md5::compute(raw_scheme);
-                            tracing::info!("[Session] Padding scheme updated: {:x}", md5_hash);
-                            // Update the session's padding factory
+                    match PaddingFactory::new(raw_scheme) {
+                        Ok(factory) => {
+                            tracing::info!("[Session] Padding scheme updated: {}", factory.md5());
+                            // Switch this session (and, through the shared cell, the client
+                            // that owns it) to the pushed scheme, and make it the process
+                            // default for sessions created from the default later on.
                             let mut padding_guard = self.padding.write().await;
-                            *padding_guard = PaddingFactory::default();
+                            *padding_guard = Arc::new(factory);
+                            drop(padding_guard);
+                            if let Err(e) = PaddingFactory::update_default(raw_scheme) {
+                                tracing::warn!(
+                                    "[Session] Failed to update default padding scheme: {}",
+                                    e
+                                );
+                            }
                         }
                         Err(e) => {
                             let md5_hash = md5::compute(raw_scheme);
